@@ -44,7 +44,8 @@ CONFIG = {
                  'reach:_checkQuantifiedFormula:return CTL.modelcheck(kripke, formula)',
                  "reach:_get_a_new_atomic_proposition_for:f_atom = '[{}({})]'.format(f_str, i)",
                  'shape:nested_quantifier', 'shape:non_ctl', 'shape:ctl',
-                 'style:text', 'inner:LTL', 'inner:CTL'],
+                 'style:text', 'inner:LTL', 'inner:CTL',
+                 'labels:spell_fresh_atoms'],
     'rule': ('cases = (Kripke structure, CTL* state formula, presentation '
              'style); a systematic family of ~700 A/E formulas over Boolean/'
              'temporal combinations of depth <=2 and one level of nested '
@@ -234,7 +235,59 @@ def collision_cases():
             out.append((nk, ('E', ('F', ('and', ('not', Ag), Eg)))))
             out.append((nk, ('A', ('G', ('imply', Eg, Ag)))))
             out.append((nk, ('E', ('U', Eg, Ag))))
+    # flat n-ary and/or of path formulas under one quantifier, with each
+    # position deciding the outcome somewhere
+    X = lambda a: ('X', a)
+    r_ = ('ap', 'r')
+    n3 = NK(range(4), [0b0010, 0b0100, 0b1000, 0b0001],
+            [{'p'}, {'q'}, {'r'}, set()])
+    n4 = NK(range(3), [0b110, 0b100, 0b001], [{'p'}, {'r'}, {'q'}])
+    for nk in (n3, n4, shapes[0]):
+        for q_ in 'AE':
+            out.append((nk, (q_, ('or', X(p), X(q), X(r_)))))
+            out.append((nk, (q_, ('or', X(r_), X(q), X(p)))))
+            out.append((nk, (q_, ('and', ('F', p), ('F', q), ('F', r_)))))
+            out.append((nk, (q_, ('and', ('G', ('not', p)), ('F', q),
+                                  ('G', ('not', r_))))))
+            out.append((nk, (q_, ('or', ('G', p), X(X(q)), ('F', r_),
+                                  ('G', q)))))
+            out.append((nk, (q_, ('and', X(('or', p, q, r_)),
+                                  ('F', ('and', ('not', p), ('not', q),
+                                         ('not', r_)))))))
     return out
+
+
+def hostile_labels(nk, t, r):
+    """Labels that spell the very names the fresh-atom generator would pick
+    for the quantified subformulas of t (and the A(not ..) forms used for E),
+    placed on random states -- so they mean something else than the
+    subformula."""
+    from pyModelChecking import CTLS
+    names = set()
+
+    def walk(x):
+        if x[0] in ('ap', 'bool'):
+            return
+        if x[0] in ('A', 'E'):
+            try:
+                f = mcwork.build(CTLS, x)
+                names.add('[%s]' % f)
+                names.add('[[%s](0)]' % f)
+                g = mcwork.build(CTLS, x[1])
+                names.add('[%s]' % CTLS.A(CTLS.LNot(g)))
+                names.add('[%s]' % CTLS.A(g))
+            except Exception:
+                pass
+        for c in x[1:]:
+            walk(c)
+    walk(t)
+    labels = [set(l) for l in nk.labels]
+    for nm in names:
+        for i in range(nk.n):
+            if r.random() < 0.4:
+                labels[i].add(nm)
+    LOG.sig['labels:spell_fresh_atoms'] += 1
+    return NK(nk.states, nk.succ, labels)
 
 
 def run(ctx):
@@ -272,7 +325,11 @@ def run(ctx):
                                   max_temporal=3)
         if not ctx.mine(k):
             continue
-        run_case(nk, t, i)
+        if k % 3 == 0:
+            nk = hostile_labels(nk, t, gen.rng(ctx.seed, PROP, ('hl', k)))
+            run_case(nk, t, 3 * (i // 3))       # object style
+        else:
+            run_case(nk, t, i)
         i += 1
     ctx.extra['reach'] = probes.result()
 
